@@ -38,3 +38,36 @@ func vsIte64k(c bool, a, b [65536]uint8) [65536]uint8 {
 	}
 	return b
 }
+
+// vsGhostMem: m is the memory the ghost record g describes, i.e. a
+// user-supplied Memory obeying the interface contract (plain byte store).  In
+// proofs this is a ghost built-in of vcheck (true exactly for the opaque
+// interface value); in the replay harness it recognises the recording memory.
+func vsGhostMem(m Memory) bool {
+	_, ok := m.(*VsRecMem)
+	return ok
+}
+
+// Recording implementations of the user interfaces: they maintain the ghost
+// record exactly as the interface call rule of vcheck does (used by replays).
+
+type VsRecMem struct{ G *VGhost }
+
+func (m *VsRecMem) Get(a uint16) uint8 { m.G.Rd[a]++; return m.G.Mem[a] }
+func (m *VsRecMem) Set(a uint16, v uint8) {
+	m.G.Wr[uint32(a)<<8|uint32(v)]++
+	m.G.Mem[a] = v
+}
+
+type VsRecIO struct{ G *VGhost }
+
+func (io *VsRecIO) In(p uint8) uint8 { io.G.PIn[p]++; return io.G.InVal[p] }
+func (io *VsRecIO) Out(p uint8, v uint8) {
+	io.G.POut[uint16(p)<<8|uint16(v)]++
+}
+
+type VsRecHandler struct{ G *VGhost }
+
+func (h *VsRecHandler) RETNHandle() { h.G.Retn++ }
+func (h *VsRecHandler) RETIHandle() { h.G.Reti++ }
+
